@@ -202,6 +202,13 @@ def check(case, ctx):
         base_sp = sps[0]
         base = _obs(p, base_sp)
         ctx.evals += 4
+        # a multiplier multiplies the mass (Mod object path), in both mass modes
+        for k, mono in ((0, True), (1, False)):
+            if base[k][0] == 'ok':
+                st, got = lib.call(p.mod_mass, p.Mod(base_sp, 2), mono)
+                ctx.evals += 1
+                if st != 'ok' or not lib.close(got, 2 * base[k][1], 1e-5):
+                    ctx.fail('multiplier', 2 * base[k][1], got, entry=label, spelling=base_sp, monoisotopic=mono)
         for sp in sps[1:]:
             o = _obs(p, sp)
             ctx.evals += 4
